@@ -387,7 +387,8 @@ unsafe fn dispose_general_node<T: RcObject>(
     counter.set(count + 1);
     if count % 128 == 0 {
         if let Some(local) = guard.local.as_ref() {
-            local.repin_without_collect();
+            // `guard` is the one guard of our own (created by `dispose`).
+            local.repin_unless_foreign_guards(1);
         }
     }
 
